@@ -290,6 +290,12 @@ func OtherRuleSpecs() []*RuleSpec {
 	mk("integer:multiple-of", "integer", TInt32, "rules.multipleOf = 5")
 	mk("string:list-searchable", "string", TString, "listRules.searching.searchable = true")
 	mk("integer:list-filter-sort", "integer", TInt64, "listRules.filtering.filterable = true", "listRules.sorting.sortable = true")
+	mk("int32:list-filter-sort", "integer", TInt32, "listRules.filtering.filterable = true", "listRules.sorting.sortable = true")
+	mk("uint32:list-filter-sort", "integer", TUint32, "listRules.filtering.filterable = true", "listRules.sorting.sortable = true")
+	mk("uint64:list-filter-sort", "integer", TUint64, "listRules.filtering.filterable = true", "listRules.sorting.sortable = true")
+	mk("float32:list", "float", TFloat32, "listRules.filtering.filterable = true", "listRules.sorting.sortable = true")
+	mk("key-informal:list-filter", "key", TKey, "listRules.filtering.filterable = true")
+	mk("key-uuid:list-filter", "key", TKeyUUID, "listRules.filtering.filterable = true")
 	mk("bool:list-filter", "bool", TBool, "listRules.filtering.filterable = true")
 	mk("key:list-filter", "key", TKeyID62, "listRules.filtering.filterable = true")
 	mk("timestamp:list", "timestamp", TTimestamp, "listRules.filtering.filterable = true", "listRules.sorting.sortable = true")
